@@ -58,7 +58,8 @@ import NucsProofs.Examples.Counts
   It is a THIRD consistency algorithm of the engine model (`ConsAlg.golomb`): `consOk_golomb`, `consKeeps_golomb` give it the two
   contracts the generic search theorems ask for, hence `C20_golomb_own_enumeration` / `C20_golomb_own_optimum`: whenever the
   Golomb example RUN WITH ITS OWN ALGORITHM returns, enumeration returns each solution once and optimisation an optimum
-  (partial correctness; termination would need a counting fact about rulers that is validated, not proved).
+  (partial correctness; termination/safety of the scan for unused distances holds on reachable states only —
+  `golomb_scan_bound_needs_reachability` is a box on which it leaves its array — and is validated on whole runs, not proved).
   and for the Schur model for every n (`C20_schurLemma_sb_iff`: the flag adds one lexicographic comparison of the first ⌊3n/2⌋
   variables with the rest; `C20_schurLemma_sb_preserves`, `C20_schurLemma_sb_sat_iff`: a renaming of the colours makes its first
   comparison 0 < 1; SchurSym.lean).
